@@ -1,4 +1,5 @@
 import BU.Driver.Core
+import BU.Driver.Taproot
 import BU.Gen.Codec
 import BU.Gen.Tables
 import BU.Crypto.Sha256
@@ -19,6 +20,17 @@ def backTx (t : Py.PyTx) : Model.Tx where
   inputs := t.inputs.map fun i => { txid := i.txid, index := i.txout_index, scriptSig := i.script_sig.map unTok, sequence := i.sequence }
   outputs := t.outputs.map fun o => { amount := o.amount, script := o.script_pubkey.map unTok }
   witnesses := t.witnesses.map (·.stack)
+
+def pyTree : Model.Tree → Py.PyTree
+  | .leaf s => .leaf (s.map fun t => match t with
+      | Spec.Tok.op n => Py.PyTok.name n | Spec.Tok.int n => Py.PyTok.int n | Spec.Tok.data d => Py.PyTok.data d)
+  | .one t => .one (pyTree t)
+  | .two l r => .two (pyTree l) (pyTree r)
+
+def pyScripts : Model.Scripts → Py.PyScripts
+  | .none => .none
+  | .root b => .root b
+  | .tree t => .tree (pyTree t)
 
 /-- as `Driver.ans`, but a function the translator could not translate answers `unsupported` -/
 def ansG {α} (f : α → String) : Except PyErr α → String
@@ -59,6 +71,12 @@ def genOps2 : List (String × R String) := [
   ("g:hrp_expand", do let h ← chars; pure (ansG ints (Gen.bech32_hrp_expand h))),
   ("g:verify_checksum", do let h ← chars; let d ← listOf int; pure (ansG (optS toString) (Gen.bech32_verify_checksum h d))),
   ("g:create_checksum", do let h ← chars; let d ← listOf int; let sp ← int; pure (ansG ints (Gen.bech32_create_checksum h d sp))),
+  ("g:tr_sign", do
+      let priv ← bytes; let pub ← bytes; let s ← scripts; let digest ← bytes; let ht ← nat; let tw ← bool
+      pure (ansG hex (Gen.sign_taproot_input Crypto.sha256 Gen.OP_CODES priv pub digest (ht : Int) (pyScripts s) tw))),
+  ("g:tr_tweak", do
+      let pub ← bytes; let s ← scripts
+      pure (ansG toString (Gen.calculate_tweak Crypto.sha256 Gen.OP_CODES pub (pyScripts s)))),
   ("g:full_pubkey", do let k ← bytes; pure (ansG hex (Gen.schnorr_full_pubkey_gen k))),
   ("g:negate", do let k ← bytes; pure (ansG hex (Gen.negate_privkey k))),
   ("g:tweak_pub", do
